@@ -13,6 +13,8 @@ Step(e) ==
          /\ \A g \in HopViolations(cfg, st, e) :
                /\ Viol(l, cfg.id, HopProp(g, st), g, "")
                /\ AlsoC10(g, st) => Viol(l, cfg.id, "C10", g, "")
+               /\ AlsoC07(g, st) => Viol(l, cfg.id, "C07", g, "")
+               /\ AlsoC08(g, st) => Viol(l, cfg.id, "C08", g, "")
          /\ st' = AfterHop(cfg, st) /\ UNCHANGED cfg
     [] e.ev = "done" ->
          /\ \A g \in DoneViolations(cfg, st, e) : Viol(l, cfg.id, DoneProp(g), g, "")
